@@ -665,7 +665,8 @@ def approximate_capacity(accessor, tolerance_level=-10, repeats=1, maximum_itera
                             extra={"largest eigenvalue": "%.5f" % eigenvalue, "error": "%.5f" % relative_error})
 
                 is_finished = False
-                if relative_error < 10 ** tolerance_level:
+                vector_error = max(abs(eigenvector - last_eigenvector))  # equal eigenvalues may precede convergence.
+                if relative_error < 10 ** tolerance_level and vector_error < 10 ** tolerance_level:
                     results.append(log2(eigenvalue) if eigenvalue > 10 ** tolerance_level else 0.0)
                     is_finished = True
 
